@@ -62,13 +62,14 @@ func runC12(c *Ctx) {
 	fns := w.ReachableRepo(entries, true)
 	for _, f := range fns {
 		c.Saw(f)
+		c.BoundsFns[f.String()] = true
 	}
 	n := reportSites(c, "R1.bounds", w.BoundsObligations(fns, c12Just))
 	c.Floor("R1.bounds", n, 10, "bounds/assertion obligations on the request path")
 	reportSites(c, "R1.nil", w.UseBeforeErrCheck(fns))
 	reportSites(c, "R1.nil", w.JSONNullPointer(fns))
 	tablesC12(c)
-	framingRules(c, "R2.framing")
+	framingRules(c, "R2.framing", []string{yubiPkg})
 	c12RespondOnce(c)
 }
 
